@@ -330,6 +330,7 @@ func fixedFamilies(level string, thorough bool) []*family {
 	}
 	ws := anyStrings(stringsUpTo("a\n\r", wsLen))
 	ws = append(ws, anyStrings(stringsUpTo("b \t", wsLen))...)
+	ws = append(ws, anyStrings(stringsUpTo("c\v\f", wsLen))...) // the two other ASCII white-space characters
 	for _, c := range chunk(ws, 100) {
 		add("splitlines", c, []any{vAbsent(), false, true})
 		add("case", c, caseMethods)
